@@ -29,6 +29,8 @@ fn server_bin() -> String {
 
 #[derive(Clone, Debug, Default)]
 struct Outcome {
+    /// the server reached the simulator's seam (axum::Server::bind or TcpListener::bind)
+    installed: bool,
     result: Option<Value>,
     exit: Option<i32>,
     signal: Option<i32>,
@@ -62,9 +64,23 @@ fn run_child(sel: RunSel) -> Outcome {
     };
     let mut so = child.stdout.take().unwrap();
     let mut se = child.stderr.take().unwrap();
+    let seen = Arc::new(AtomicBool::new(false));
+    let seen2 = seen.clone();
     let ho = std::thread::spawn(move || {
+        use std::io::BufRead;
         let mut s = String::new();
-        let _ = std::io::Read::read_to_string(&mut so, &mut s);
+        let mut r = std::io::BufReader::new(&mut so);
+        let mut line = String::new();
+        while let Ok(n) = r.read_line(&mut line) {
+            if n == 0 {
+                break;
+            }
+            if line.starts_with("@@C20-INSTALLED") {
+                seen2.store(true, std::sync::atomic::Ordering::SeqCst);
+            }
+            s.push_str(&line);
+            line.clear();
+        }
         s
     });
     let he = std::thread::spawn(move || {
@@ -78,7 +94,9 @@ fn run_child(sel: RunSel) -> Outcome {
         match child.try_wait() {
             Ok(Some(s)) => break s,
             Ok(None) => {
-                if t0.elapsed() > timeout {
+                // a server that never reaches a seam the simulator owns would sit on a real socket forever
+                let stuck_outside = !seen.load(std::sync::atomic::Ordering::SeqCst) && t0.elapsed() > Duration::from_secs(15);
+                if t0.elapsed() > timeout || stuck_outside {
                     timed_out = true;
                     let _ = child.kill();
                     break child.wait().unwrap();
@@ -91,7 +109,8 @@ fn run_child(sel: RunSel) -> Outcome {
     let stdout = ho.join().unwrap_or_default();
     let stderr = he.join().unwrap_or_default();
     let result = stdout.lines().find_map(|l| l.strip_prefix("@@C20 ")).and_then(|j| simcommon::serde_json::from_str::<Value>(j).ok());
-    Outcome { result, exit: status.code(), signal: status.signal(), timed_out, stderr, wall: t0.elapsed().as_secs_f64() }
+    let installed = stdout.lines().any(|l| l.starts_with("@@C20-INSTALLED"));
+    Outcome { installed, result, exit: status.code(), signal: status.signal(), timed_out, stderr, wall: t0.elapsed().as_secs_f64() }
 }
 
 /// Violations of one run: what the in-process oracle reported, plus process-level ones.
@@ -105,6 +124,15 @@ fn violations_of(o: &Outcome) -> Vec<(String, String)> {
                 let detail = x.get("detail").and_then(|c| c.as_str()).unwrap_or("").to_string();
                 v.push((if kind.is_empty() { class } else { format!("{}/{}", class, kind) }, detail));
             }
+        }
+        None if !o.installed => {
+            // never a verdict: the server did not go through any seam the simulator owns
+            simcommon::harness_error(&format!(
+                "the server never reached the simulator (neither axum::Server::bind nor tokio::net::TcpListener::bind was called): exit={:?} signal={:?} stderr={}",
+                o.exit,
+                o.signal,
+                simcommon::preview(&o.stderr, 300)
+            ));
         }
         None => {
             let why = if o.timed_out {
@@ -163,6 +191,7 @@ fn drop_conn(run: &RunDesc, c: usize) -> RunDesc {
                 Action::Hold => Action::Hold,
                 Action::Release => Action::Release,
                 Action::Tick(ms) => Action::Tick(*ms),
+                Action::AcceptError(e) => Action::AcceptError(*e),
             }
         })
         .collect();
@@ -213,7 +242,7 @@ fn minimise(run: &RunDesc, class: &str) -> RunDesc {
     // probes and other single actions
     let mut i = 0;
     while i < cur.actions.len() && tries < limit {
-        if matches!(cur.actions[i], Action::Probe | Action::Hold | Action::Release | Action::Tick(_) | Action::Drain(..) | Action::HalfClose(_) | Action::Close(_) | Action::Reset(_)) {
+        if matches!(cur.actions[i], Action::Probe | Action::Hold | Action::Release | Action::Tick(_) | Action::AcceptError(_) | Action::Drain(..) | Action::HalfClose(_) | Action::Close(_) | Action::Reset(_)) {
             let mut cand = cur.clone();
             cand.actions.remove(i);
             if still_fails(&cand, class, &mut tries) {
